@@ -701,6 +701,9 @@ func (cs *Contracts) parseContractText(pkgPath, file string, text string, baseLi
 					cur.Public = append(cur.Public, strings.TrimSpace(m))
 				}
 			case "requires", "ensures", "ensures-always", "assume", "cover":
+				if first == "assume" && strings.HasSuffix(strings.TrimSpace(rest), " at unwind") {
+					rest = strings.TrimSuffix(strings.TrimSpace(rest), " at unwind") + " before \"$unwind\""
+				}
 				if first == "assume" && (strings.Contains(rest, " after \"") || strings.Contains(rest, " before \"")) {
 					tags, body := parseTags(rest)
 					idx, before := strings.LastIndex(body, " after \""), false
